@@ -6,7 +6,7 @@ package main
 // watchedResourcesByOrder), each called several times because Go's map iteration order is random.
 //
 //	case <n> needs
-//	proxy <ty> <cfgNs> <metaNs> <ew> <watchAddr> <selfDisc> <local> <prevLocal> <targets> <scope> <prevScope> <mg> <prevMg> <network> <addrs>
+//	proxy <ty> <cfgNs> <metaNs> <ew> <watchAddr> <selfDisc> <local> <prevLocal> <targets> <prevTargets> <scope> <prevScope> <mg> <prevMg> <network> <addrs>
 //	req <forced> <reasons> <keys> <wrefs>
 //	nilreq
 //	order <watched types>
@@ -103,6 +103,9 @@ func genProxy(r *wire.Rng, kinds []kind.Kind) mProxy {
 	for i := r.Intn(3); i > 0; i-- {
 		p.Targets = append(p.Targets, [2]int{5 + r.Intn(4), r.Intn(3)})
 	}
+	for i := r.Intn(3); i > 0 && r.Chance(1, 2); i-- {
+		p.PrevTargets = append(p.PrevTargets, [2]int{5 + r.Intn(4), r.Intn(3)})
+	}
 	p.Scope = genScope(r, kinds)
 	p.PrevScope = genScope(r, kinds)
 	if r.Chance(1, 3) {
@@ -155,6 +158,10 @@ func genReq(r *wire.Rng, kinds []kind.Kind, p mProxy) mReq {
 		}
 		if r.Chance(1, 8) && len(p.Targets) > 0 {
 			t := wire.Pick(r, p.Targets)
+			k = mKey{Kind: kind.ServiceEntry, Name: t[0], Ns: t[1]}
+		}
+		if r.Chance(1, 8) && len(p.PrevTargets) > 0 {
+			t := wire.Pick(r, p.PrevTargets)
 			k = mKey{Kind: kind.ServiceEntry, Name: t[0], Ns: t[1]}
 		}
 		dup := false
@@ -237,12 +244,15 @@ func localTok(x [2]int) string {
 }
 
 func (p mProxy) line() []string {
-	var targets []string
+	var targets, prevTargets []string
 	for _, t := range p.Targets {
 		targets = append(targets, fmt.Sprintf("%d/%d", t[0], t[1]))
 	}
+	for _, t := range p.PrevTargets {
+		prevTargets = append(prevTargets, fmt.Sprintf("%d/%d", t[0], t[1]))
+	}
 	return []string{"proxy", string(p.Type), strconv.Itoa(p.CfgNs), strconv.Itoa(p.MetaNs), wire.B(p.EW), wire.B(p.WatchAddr),
-		wire.B(p.SelfDisc), localTok(p.Local), localTok(p.PrevLocal), join(targets), p.Scope.tok(), p.PrevScope.tok(),
+		wire.B(p.SelfDisc), localTok(p.Local), localTok(p.PrevLocal), join(targets), join(prevTargets), p.Scope.tok(), p.PrevScope.tok(),
 		p.MG.tok(), p.PrevMG.tok(), strconv.Itoa(p.Network), join(ints(p.Addrs))}
 }
 
@@ -349,10 +359,14 @@ func parseProxy(f []string) mProxy {
 		x := strings.Split(t, "/")
 		p.Targets = append(p.Targets, [2]int{atoi(x[0]), atoi(x[1])})
 	}
-	p.Scope, p.PrevScope = parseScope(f[10]), parseScope(f[11])
-	p.MG, p.PrevMG = parseMG(f[12]), parseMG(f[13])
-	p.Network = atoi(f[14])
-	for _, a := range parseList(f[15], ",") {
+	for _, t := range parseList(f[10], ",") {
+		x := strings.Split(t, "/")
+		p.PrevTargets = append(p.PrevTargets, [2]int{atoi(x[0]), atoi(x[1])})
+	}
+	p.Scope, p.PrevScope = parseScope(f[11]), parseScope(f[12])
+	p.MG, p.PrevMG = parseMG(f[13]), parseMG(f[14])
+	p.Network = atoi(f[15])
+	for _, a := range parseList(f[16], ",") {
 		p.Addrs = append(p.Addrs, atoi(a))
 	}
 	return p
